@@ -181,9 +181,14 @@ func ptrIP(ptr string) net.IP {
 		if base == 16 {
 			// ip6 use hex nibbles instead of base 10 bytes, so we need to join
 			// nibbles by two.
+			// The labels come most significant nibble first: the first
+			// nibble of a byte is its high half, so that a name cut after an
+			// odd number of nibbles still denotes the right prefix.
 			ii /= 2
-			if i&1 == 1 {
-				b |= ip[ii] << 4
+			if i&1 == 0 {
+				b <<= 4
+			} else {
+				b |= ip[ii]
 			}
 		}
 		ip[ii] = b
